@@ -238,12 +238,20 @@ func fetchSpentOutputs(ctx context.Context, store storage.Storage, outputFetcher
 
 // processUnconfirmedTxs pulls txs from the unconfirmed tx channel and processes them.
 func (node *Node) processUnconfirmedTxs(ctx context.Context) {
+	failed := false
 	for tx := range node.unconfTxChannel.Channel {
+		if failed {
+			// Don't break out of the loop because we need to continue emptying the channel.
+			// Otherwise anything adding to the channel can get locked on a write, while holding
+			// the channel's lock, and the node can never finish stopping.
+			continue
+		}
+
 		if err := node.processUnconfirmedTx(ctx, tx); err != nil {
 			logger.Error(ctx, "SpyNodeAborted to process unconfirmed tx : %s : %s", err,
 				tx.Msg.TxHash().String())
 			node.requestStop(ctx)
-			break
+			failed = true
 		}
 	}
 }
